@@ -326,3 +326,95 @@ def rule_growth_room(prog, rep, units, rid='GR1'):
                                   'when %s is false nothing grows, yet %s[%s] is written afterwards: that needs %s + %d < %s, which the '
                                   'false outcome does not give (the element after the last one - an end marker - has no slot)'
                                   % (canon(c), buf, canon(children(worst[1])[1]), cnt, worst[0], cap))
+
+
+# --------------------------------------------------------------------------------------
+# F1: a formatted result is accepted as complete only when it fits with its terminator
+
+def rule_fmt_complete(prog, rep, units, rid='F1'):
+    """Retry loops around vsnprintf/snprintf (the DYNAMIC_VSPRINTF expansion in every formatted put/append): the C library
+    returns the length the text NEEDS; the buffer holds it completely only when that length is strictly smaller than the
+    size passed.  Every path that leaves the retry loop without releasing the buffer must have established
+    `result < size` (any equivalent spelling: `size > result`, `result + 1 <= size`, the negation of `result >= size`).
+    Accepting `result <= size` stores a text whose last character was cut off exactly when the length equals the size."""
+    from .hashrules import _loop_nodes
+    rep.rule(rid, 'a vsnprintf/snprintf retry loop accepts the buffer only on paths that established result < size (strictly): '
+                  'a result equal to the size means the last character was cut off')
+    for u in units:
+        prog.unit(u)
+        for f in sorted(prog.funcs_in(u), key=lambda x: x.line or 0):
+            if f.body is None:
+                continue
+            cfg = f.cfg
+            for n in cfg.nodes:
+                if n.id not in cfg.reachable or not isinstance(n.ast, dict) or n.kind == 'macro':
+                    continue
+                for x in walk(n.ast):
+                    if x.get('kind') != 'CallExpr' or prog.callee_name(x) not in ('vsnprintf', 'snprintf'):
+                        continue
+                    args = children(x)[1:]
+                    if len(args) < 2:
+                        continue
+                    res = None
+                    if n.ast.get('kind') == 'VarDecl':
+                        from .expr import var_init
+                        if var_init(n.ast) is not None and strip(var_init(n.ast)) is x:
+                            res = n.ast.get('name')
+                    for z in walk(n.ast):
+                        if z.get('kind') == 'BinaryOperator' and z.get('opcode') == '=' and strip(children(z)[1]) is x:
+                            res = canon(children(z)[0])
+                    if res is None:
+                        continue
+                    loops = [(h, _loop_nodes(cfg, h)) for (h, _s) in cfg.loops if h.id in cfg.reachable]
+                    loops = [(h, b) for (h, b) in loops if n.id in b]
+                    if not loops:
+                        continue
+                    head, body = min(loops, key=lambda hb: len(hb[1]))
+                    buf, sz = canon(args[0]), canon(args[1])
+                    target = Poly.atom(res) - Poly.atom(sz)
+                    rep.instance(rid)
+
+                    def strict_on(c, lab):
+                        c = strip_parens(c)
+                        if c.get('kind') != 'BinaryOperator' or c.get('opcode') not in ('<', '<=', '>', '>='):
+                            return False
+                        l, r = children(c)
+                        d = poly_of(l) - poly_of(r)
+                        op = c.get('opcode')
+                        if lab == 'F':
+                            op = {'<': '>=', '<=': '>', '>': '<=', '>=': '<'}[op]
+                        k = (d - target).as_const()
+                        if k is not None:            # res - sz + k  op  0
+                            return (op == '<' and k >= 0) or (op == '<=' and k >= 1)
+                        k = (d + target).as_const()
+                        if k is not None:            # sz - res + k  op  0
+                            return (op == '>' and k <= 0) or (op == '>=' and k <= -1)
+                        return False
+
+                    def releases(m):
+                        return isinstance(m.ast, dict) and m.kind != 'macro' and any(
+                            y.get('kind') == 'CallExpr' and prog.callee_name(y) in ('free', 'realloc') and len(children(y)) > 1
+                            and canon(children(y)[1]) == buf for y in walk(m.ast))
+                    bad = None
+                    seen = set()
+                    work = [(s, False, lab, n) for (s, lab) in n.succs]
+                    while work and bad is None:
+                        m, strict, lab, frm = work.pop()
+                        if frm.kind == 'cond' and isinstance(frm.ast, dict) and lab in ('T', 'F') and strict_on(frm.ast, lab):
+                            strict = True
+                        if m.id not in body or m is cfg.exit:
+                            if not strict:
+                                bad = m
+                            continue
+                        if (m.id, strict) in seen or releases(m) or m is n:
+                            continue
+                        seen.add((m.id, strict))
+                        for (s, l2) in m.succs:
+                            work.append((s, strict, l2, m))
+                    ok = bad is None
+                    rep.oblige(rid, ok, {'function': f.name, 'call': canon(x)[:60], 'result': res, 'size': sz})
+                    if not ok:
+                        rep.violation(rid, f, x.get('_line'), 'accept:%s' % res,
+                                      '%s: the retry loop around %s(%s, %s, ...) can be left with the buffer kept on a path that did '
+                                      'not establish %s < %s: a text of exactly %s characters is stored with its last character cut off'
+                                      % (f.name, prog.callee_name(x), buf, sz, res, sz, sz))
